@@ -35,13 +35,30 @@ async def run_config(ctx, tree, W, kind, seqs, rnd, results):
         v = _ver[0]
         kr['ev'].append({'e': 'OResp', 'v': v, 'status': 200, 'len': kr['size']})
         body = peers.body_bytes(v, kr['size'])
-        head = peers.response_head(200, 'OK', [('Content-Length', str(kr['size'])), ('Cache-Control', 'max-age=3600'), ('Date', peers.http_date()),
+        fr = kr['framing']
+        head = peers.response_head(200, 'OK', ([('Content-Length', str(kr['size']))] if fr == 'length' else [('Transfer-Encoding', 'chunked')] if fr == 'chunked' else [('Connection', 'close')]) + [
+                                               ('Cache-Control', 'max-age=3600'), ('Date', peers.http_date()),
                                                ('X-Verif-Version', str(v)), ('X-Verif-Canary', str(v)), ('X-Verif-Origin', '1')])
+        wire = peers.chunk_encode(body, [max(1, kr['size'] // 5)]) if fr == 'chunked' else body
+        if q.head.get('X-Verif-SlowAbort') == '1' and kr['size'] > 4:
+            # two fifths, a pause in which a reader on another worker can attach, a bit more, then the connection drops
+            cut1, cut2 = 2 * len(wire) // 5, 3 * len(wire) // 5
+            if fr == 'close':
+                kr['ev'][-1]['len'] = cut2       # a close-delimited body ends where the connection ends: this IS a complete (shorter) version
+            await oc.send(head + wire[:cut1])
+            await asyncio.sleep(0.08)
+            await oc.send(wire[cut1:cut2])
+            await asyncio.sleep(0.02)
+            oc.close()
+            return True
         if q.head.get('X-Verif-Slow') == '1' and kr['size'] > 4:
             await oc.send(head)
-            await oc.send_segments(body, [kr['size'] // 3, 2 * kr['size'] // 3], delay=0.02)
+            await oc.send_segments(wire, [len(wire) // 3, 2 * len(wire) // 3], delay=0.02)
         else:
-            await oc.send(head + body)
+            await oc.send(head + wire)
+        if fr == 'close':
+            oc.close()
+            return True
         return False
     origin = await peers.Origin(peers.Rec(), responder).start()
 
@@ -80,6 +97,11 @@ async def run_config(ctx, tree, W, kind, seqs, rnd, results):
                 await asyncio.sleep(0.03)
                 await get(kr, other)
                 await t1
+            elif op == 'slowabort':
+                t1 = asyncio.ensure_future(get(kr, w, [('X-Verif-SlowAbort', '1')]))
+                await asyncio.sleep(0.04)
+                await get(kr, other)
+                await t1
             elif op == 'reload':
                 await get(kr, w, [('Cache-Control', 'no-cache')])
             elif op == 'pair':
@@ -91,7 +113,8 @@ async def run_config(ctx, tree, W, kind, seqs, rnd, results):
     try:
         krs = []
         for i, ops in enumerate(seqs):
-            kr = {'key': 'k%d' % i, 'ops': ops, 'ev': [], 'rid': 0, 'size': random.Random(rnd.random()).choice(SIZES)}
+            kr = {'key': 'k%d' % i, 'ops': ops, 'ev': [], 'rid': 0, 'size': random.Random(rnd.random()).choice(SIZES),
+                  'framing': random.Random(rnd.random()).choice(['length', 'length', 'chunked', 'chunked', 'close'])}
             keys[kr['key']] = kr
             krs.append(kr)
         await escen.gather_limited([run_key(k) for k in krs], limit=8)
@@ -128,9 +151,10 @@ def run(ctx):
     for i in rej[:5]:
         kind, W, kr = results[i]
         ctx.violation('SMP cache history violates SmpCache.tla (store=%s workers=%d ops=%s size=%d): %s' % (kind, W, kr['ops'], kr['size'], json.dumps([e for e in kr['ev'] if e['e'] != 'Req'])[:900]),
-                      {'kind': 'smp', 'store': kind, 'workers': W, 'ops': kr['ops'], 'size': kr['size'], 'events': kr['ev']})
+                      {'kind': 'smp', 'store': kind, 'workers': W, 'ops': kr['ops'], 'size': kr['size'], 'framing': kr['framing'], 'events': kr['ev']})
     hits = [e for _, _, kr in results for e in kr['ev'] if e['e'] == 'CResp' and ';hit' in e.get('cs', '')]
-    ctx.cov['impl_distinct'] = len({json.dumps([k, W, kr['ops'], kr['size']]) for k, W, kr in results})
+    ctx.cov['impl_distinct'] = len({json.dumps([k, W, kr['ops'], kr['size'], kr['framing']]) for k, W, kr in results})
+    ctx.cov['by_framing'] = {f: sum(1 for _, _, kr in results if kr['framing'] == f) for f in ('length', 'chunked', 'close')}
     ctx.cov['responses_checked'] = sum(1 for _, _, kr in results for e in kr['ev'] if e['e'] == 'CResp')
     ctx.cov['cache_hits_observed'] = len(hits)
     ctx.cov['cross_worker_hits'] = sum(1 for k, W, kr in results for j, e in enumerate(kr['ev']) if e['e'] == 'CResp' and ';hit' in e.get('cs', '')
@@ -138,7 +162,7 @@ def run(ctx):
     ctx.cov['invalidations'] = sum(1 for _, _, kr in results for e in kr['ev'] if e['e'] == 'Inval')
     for k, W, kr in results[:2]:
         ctx.sample({'store': k, 'workers': W, 'ops': kr['ops'], 'size': kr['size'], 'events': kr['ev'][:8]})
-    ctx.cov['rule'] = ('operation sequences = all words of length 4 over {get, getslow(+reader on another worker), reload, post(invalidate), pair} x worker explored by TLC on SmpScen.tla; '
-                       'sampled sequences realised on their own URLs (8 in flight) against SMP squid with 2 (thorough: 3) workers, shared memory cache and rock, sizes across shared-page and '
+    ctx.cov['rule'] = ('operation sequences = all words of length 4 over {get, getslow(+reader on another worker), slowabort(the same, the origin drops the connection mid-body), reload, post(invalidate), pair} x worker explored by TLC on SmpScen.tla; '
+                       'sampled sequences realised on their own URLs (8 in flight) against SMP squid with 2 (thorough: 3) workers, shared memory cache and rock, origin framing Content-Length / chunked / close-delimited, sizes across shared-page and '
                        'slot boundaries; one history per URL validated by TLC against SmpCache.tla.')
     ctx.assumptions += ['per-worker listening ports pin clients to workers', 'a 20 ms grace after an invalidating response before the next request (cross-worker purge notification is asynchronous)']
